@@ -3247,9 +3247,9 @@ LEAN_OBLIGATIONS.update({
 LAYOUT_OBL = ["Tumfl.Props.C08_remove_separators", "Tumfl.Props.C08_add_spacing", "Tumfl.Props.C08_remove_orphaned", "Tumfl.Props.C08_resolve_tokens",
               "Tumfl.Props.C08_join", "Tumfl.Props.C08_indent_brackets", "Tumfl.Props.C08_string_wrap", "Tumfl.Props.C08_wrap_progress", "Tumfl.Props.C02_boundary",
               "Tumfl.Props.C08_comment_wf", "Tumfl.Props.C08_comment_text"]
-PIECE_OBL = ["Tumfl.Props.Print_sim", "Tumfl.Props.Print_sim_parseToks", "Tumfl.Props.Print_readings", "Tumfl.Props.C11_roundtrip", "Tumfl.Props.C11_emit_is_par", "Tumfl.Props.C11_emit_roundtrip", "Tumfl.Props.C11_minified", "Tumfl.Inst.brackets_sound_all",
+PIECE_OBL = ["Tumfl.Props.Parse_printable", "Tumfl.Props.C10_parse_sound", "Tumfl.Props.C03_parse_complete", "Tumfl.Props.Print_sim", "Tumfl.Props.Print_sim_parseToks", "Tumfl.Props.Print_readings", "Tumfl.Props.C11_roundtrip", "Tumfl.Props.C11_emit_is_par", "Tumfl.Props.C11_emit_roundtrip", "Tumfl.Props.C11_minified", "Tumfl.Inst.brackets_sound_all",
              "Tumfl.Props.C06_quoted", "Tumfl.Props.C06_long", "Tumfl.Props.C06_forms", "Tumfl.Props.C06_wrapped", "Tumfl.Props.C07_partial", "Tumfl.Props.C13_emit_on"]
-FORMAT_MODULES = ["Tumfl.Props.Print", "Tumfl.Props.C08", "Tumfl.Props.C11", "Tumfl.Props.C06", "Tumfl.Props.C07", "Tumfl.Props.C13"]
+FORMAT_MODULES = ["Tumfl.Props.Parse", "Tumfl.Props.Print", "Tumfl.Props.C08", "Tumfl.Props.C11", "Tumfl.Props.C06", "Tumfl.Props.C07", "Tumfl.Props.C13"]
 FORMAT_PARTIAL = ["proved: every token reading of the emitted pieces (each statement/block separator independently a `;` or nothing) is accepted by the reference parser with the "
                   "same tree modulo parentheses and empty statements, for every style and printable tree (Print_sim); the source is parsed to a tree related to the reference "
                   "tree (parser simulation, C03/C10); each layout pass keeps the pieces, literals and their `\\z` wrapping read back, comments are well-formed, adjacent pieces "
@@ -3298,6 +3298,21 @@ for _pid, _obl, _note in [
     _d["modules"] = list(dict.fromkeys(_d["modules"] + ["Tumfl.Props.Lex"]))
     _d["obligations"] = list(dict.fromkeys(_d["obligations"] + _obl))
     _d["partial_hypotheses"] = _d["partial_hypotheses"] + [_note]
+
+for _pid, _obl, _notes in [
+    ("C03", ["Tumfl.Props.C03_parse_complete", "Tumfl.Props.C03_accept_iff", "Tumfl.Props.C10_parse_sound", "Tumfl.Props.Accepts_unique", "Tumfl.Props.C03_needs_inScope",
+             "Tumfl.Props.Parse_example_sound"],
+     ["proved on the model: every valid chunk with in-scope string values is accepted and the tree is the reference tree with its parentheses erased (C03_parse_complete: lexer "
+      "bridge + parser simulation + fuel adequacy composed); the clause `parentheses that change meaning are not lost` is NOT covered - it is false (K1); numeral kinds of `5.` and "
+      "`0x.8` (K2) are not part of the tree relation"]),
+    ("C10", ["Tumfl.Props.C10_parse_sound", "Tumfl.Props.C03_accept_iff", "Tumfl.Props.Accepts_unique", "Tumfl.Props.C10_needs_noCR", "Tumfl.Props.Parse_example_rejects"],
+     ["proved on the model: a successful parse of a text without carriage returns implies the reference lexer and parser accept the whole text as one chunk, with the same tree "
+      "modulo parentheses (C10_parse_sound); carriage returns are outside the quantifier (C10_needs_noCR shows the hypothesis is needed)"]),
+]:
+    _d = LEAN_OBLIGATIONS[_pid]
+    _d["modules"] = list(dict.fromkeys(_d["modules"] + ["Tumfl.Props.Parse"]))
+    _d["obligations"] = list(dict.fromkeys(_d["obligations"] + _obl))
+    _d["partial_hypotheses"] = _notes
 for _pid, _ov in LEAN_OBLIGATIONS.items():
     REGISTRY[_pid].update(_ov)
 
